@@ -52,6 +52,13 @@ def gen_cases(rng, tier, prop):
     for p, c in cc.CORPUS_PAIRS:
         cases.append({"pattern": p, "code": c, "origin": "corpus", "setup": cc.SETUPS[len(cases) % 3],
                       "api": "node" if len(cases) % 4 == 3 else "find_matches", "spelling": "plain"})
+    for code, pat, vars_ in cc.CORPUS_DERIVED:
+        cases.append({"pattern": pat, "code": code, "origin": "corpus:derived", "setup": cc.SETUPS[len(cases) % 3],
+                      "api": "find_matches", "spelling": "plain",
+                      "derived": cc.Derived(code, pat, {}, dict(vars_), ["var"] * len(vars_), "corpus")})
+    for pat, gen, code in cc.MONO_TRIPLES:
+        cases.append({"pattern": pat, "code": code, "origin": "corpus:mono", "setup": "code", "api": "find_matches",
+                      "spelling": "plain", "generalisations": [gen]})
     n_prog = {"quick": 110, "thorough": 2500}[tier]
     gen = cc.Gen(rng)
     progs = []
@@ -198,6 +205,23 @@ def correspond(prop):
             if rng.random() < (0.5 if tier == "quick" else 0.3):
                 for sc, kw in sub_cases(rng, c, r):
                     do(sc, **kw)
+        # C11's last sentence: generalise patterns that MATCH (whether or not they were taken from the program)
+        p_mono = 0.5 if tier == "quick" else 0.25
+        for c, r in list(runs):
+            if r.exc is not None or not r.matches or r.api == "sub" or c.get("mono_parent") is not None:
+                continue
+            gens = list(c.get("generalisations", []))
+            if not gens and rng.random() < p_mono:
+                try:
+                    d = cc.derive(rng, c["pattern"], ast.parse(c["pattern"]), whole=True, max_steps=2)
+                except (SyntaxError, RecursionError):
+                    d = None
+                if d is not None and d.steps and d.pattern != c["pattern"]:
+                    gens.append(d.pattern)
+            for g in gens:
+                do({"pattern": g, "code": c["code"], "origin": c["origin"].split(":")[0] + ":generalised",
+                    "setup": c["setup"], "api": "find_matches", "spelling": c.get("spelling", "plain"),
+                    "mono_parent": c["pattern"], "mono_cross": cc.cross_field_pairs(r)})
         to_model = [(c, r) for c, r in runs if r.compare_model]
         answers = dict(zip((id(r) for _, r in to_model), driver.ask([r.request() for _, r in to_model])))
         for c, r in runs:
@@ -402,7 +426,8 @@ def search_c11(rng, tier, broken, corr):
     info = {"evaluations": 0, "distinct_nontrivial": 0,
             "rule": "oracle = a pattern derived from (a statement of) the program by wildcard / __expr__ replacement, "
                     "consistent _var_ renaming and sibling dropping must give >= 1 match, one of which binds every "
-                    "placeholder to what it replaced; non-trivial = derivation with at least one step",
+                    "placeholder to what it replaced; a generalisation (same steps) of ANY pattern that matches must "
+                    "still match; non-trivial = derivation with at least one step",
             "samples": [], "steps": {}, "skips": STATE.get("skips", {})}
     failures = []
     bad = []
@@ -443,6 +468,25 @@ def search_c11(rng, tier, broken, corr):
                                          "of %r: %s" % (c["pattern"], c.get("use_previous"), c["parent_key"],
                                                         c["parent_pattern"], why),
                                     {k: c[k] for k in CASE_KEYS if k in c}))
+    # generalising a MATCHING pattern must not lose the match
+    for c, r in runs:
+        parent = c.get("mono_parent")
+        if parent is None:
+            continue
+        info["evaluations"] += 1
+        info["generalised_matching_patterns"] = info.get("generalised_matching_patterns", 0) + 1
+        why = "raises " + r.exc if r.exc is not None else ("no match" if not r.matches else None)
+        if why is None:
+            continue
+        below, elsewhere = c.get("mono_cross", (0, 0))
+        cause = ("fields-not-compared-below-commutative-operator" if below and not elsewhere else
+                 "cross-field-pairing-elsewhere" if elsewhere else "field-respecting-match")
+        sig = {"oracle": "generalise-matching-pattern", "why": why.split(" ")[0] + (" " + why.split(" ")[1] if why.startswith("raises") else ""),
+               "cause": cause}
+        failures.append(Failure(sig, "pattern %r matches %r, its generalisation %r does not (%s; the first match pairs nodes of "
+                                     "different fields: %d below a + / *, %d elsewhere)" % (parent, c["code"], c["pattern"], why, below, elsewhere),
+                                {"pattern": c["pattern"], "code": c["code"], "setup": c["setup"], "api": "find_matches",
+                                 "generalisation_of": parent, "why": why}))
     seen = set()
     for c, d, why in bad:
         kinds = sorted({s.split(":")[0] for s in d.steps})
